@@ -158,3 +158,12 @@ Definition avg_ (l : list av) : res :=
          | _ => RErr 6
          end
   end.
+
+(* ---- fn:deep-equal on sequences of atomic values: same length and pairwise the same value (eq, NaN = NaN, values that
+   are not comparable are different) ---- *)
+Fixpoint deep_equal (l1 l2 : list av) : bool :=
+  match l1, l2 with
+  | [], [] => true
+  | x :: r1, y :: r2 => dv_same x y && deep_equal r1 r2
+  | _, _ => false
+  end.
